@@ -239,6 +239,14 @@ func genC21Seq(rg *vkit.Rand, s *c21Spec) {
 			}
 			m.deleteBucket(b)
 			s.Steps = append(s.Steps, c21Step{Op: "delete-bucket", Bucket: b})
+		case roll < 72:
+			st := putStep(rg, b, k, seq)
+			st.Op, st.Meta, st.Class = "bad-put", nil, ""
+			if st.Size == 0 {
+				st.Size = 17
+			}
+			st.Cond = vkit.Pick(rg, []string{"etag", "crc32", "sha256"})
+			s.Steps = append(s.Steps, st)
 		case roll < 78:
 			s.Steps = append(s.Steps, c21Step{Op: "head", Bucket: b, Key: k})
 		case roll < 85:
@@ -380,6 +388,8 @@ func errKind(err error) string {
 		return "no-such-bucket"
 	case errors.Is(err, storage.ErrPreconditionFailed):
 		return "precondition-failed"
+	case errors.Is(err, storage.ErrBadDigest):
+		return "bad-digest"
 	}
 	return "err:" + errString(err)
 }
@@ -568,6 +578,26 @@ func (c *c21Run) execOn(ctx context.Context, ob storage.Storage, client int, st 
 			opts = nil
 		}
 		_, err := ob.PutObject(ctx, bn(st.Bucket), kn(st.Key), ptrOrNil(st.CType), bytes.NewReader(c21Content(st.Key, client, st.Seq, st.Size)), nil, opts)
+		rec.Out = errKind(err)
+	case "bad-put":
+		// the declared checksum does not describe the body: the write must be rejected and leave no trace
+		bogus := &storage.ChecksumInput{}
+		switch st.Cond {
+		case "etag":
+			e := "\"ffffffffffffffffffffffffffffffff\""
+			bogus.ETag = &e
+		case "crc32":
+			v := "AAAAAA=="
+			bogus.ChecksumCRC32 = &v
+		default:
+			v := "47DEQpj8HBSa+/TImW+5JCeuQeRkm5NMpJWZG3hSuFU="
+			bogus.ChecksumSHA256 = &v
+		}
+		var opts *storage.PutObjectOptions
+		if st.Tags != nil {
+			opts = &storage.PutObjectOptions{Tags: st.Tags}
+		}
+		_, err := ob.PutObject(ctx, bn(st.Bucket), kn(st.Key), ptrOrNil(st.CType), bytes.NewReader(c21Content(st.Key, client, st.Seq, st.Size)), bogus, opts)
 		rec.Out = errKind(err)
 	case "delete":
 		_, err := ob.DeleteObject(ctx, bn(st.Bucket), kn(st.Key), nil)
